@@ -1,9 +1,12 @@
 CONSTANTS
  MaxOps = 4
  Arity = 1
+ EmitFrom = 0
 INIT Init
 NEXT Next
 VIEW View
 INVARIANT OrderOK
+INVARIANT CacheCoherent
+INVARIANT DfltSound
 ACTION_CONSTRAINT Emit
 CHECK_DEADLOCK FALSE
